@@ -43,7 +43,42 @@ def top_fns(n):
     return [it for it in n["items"] if it["k"] == "fn"]
 
 
+def sync_links(nodes):
+    """A link to a file INSIDE the tree carries a copy of that file's contents (the model does not resolve
+    paths): after an edit the copy follows the file; a link whose target is gone or renamed dangles."""
+    for n in nodes:
+        if n["t"] == "d":
+            sync_links(n["ch"])
+        elif n["t"] == "l" and n.get("to") == "file" and n.get("where") == "inside":
+            cur, tgt = nodes, None
+            parts = n["rel"].split("/")
+            for k, part in enumerate(parts):
+                hit = [m for m in cur if m["name"] == part]
+                if not hit:
+                    break
+                if k == len(parts) - 1:
+                    tgt = hit[0] if hit[0]["t"] == "f" else None
+                elif hit[0]["t"] == "d":
+                    cur = hit[0]["ch"]
+                else:
+                    break
+            for key in G.CONTENT_KEYS:
+                n.pop(key, None)
+            if tgt is None:
+                n.pop("where", None)
+                n.pop("rel", None)
+                n["to"] = "dangling"
+            else:
+                n.update({key: copy.deepcopy(tgt[key]) for key in G.CONTENT_KEYS if key in tgt})
+
+
 def edit(rng, tree, kind, fresh):
+    t = edit_(rng, tree, kind, fresh)
+    sync_links(t)
+    return t
+
+
+def edit_(rng, tree, kind, fresh):
     """Returns a new tree; fresh: list of unused function names (popped)."""
     t = copy.deepcopy(tree)
     files = list(parsed_files(t))
